@@ -1117,8 +1117,12 @@ func (p *Program) rulePolyHoles(c *Check) {
 		n++
 		sp := sp
 		before := len(c.Obs)
-		p.runE8(c, &e8row{id: "(*geometry.Poly)." + sp.method + "#holes", fn: fn, opaque: kernels, rangeMax: 2, maxBools: 16,
-			what: "for polygons with up to two holes (and two holes of the operand): " + sp.what,
+		holes := 2
+		if deepTier && (sp.method == "ContainsPoint" || sp.method == "ContainsLine" || sp.method == "IntersectsLine") {
+			holes = 4
+		}
+		p.runE8(c, &e8row{id: "(*geometry.Poly)." + sp.method + "#holes", fn: fn, opaque: kernels, rangeMax: holes, maxBools: 16,
+			what: fmt.Sprintf("for polygons with up to %d holes (and as many holes of the operand): ", holes) + sp.what,
 			pre: func(a *e8assign, nm *e8names) bool {
 				// receiver and operand are present (the nil guards are T3's business)
 				for _, b := range nm.bools {
@@ -1290,7 +1294,11 @@ func (p *Program) ruleCyclicNeighbours(c *Check) {
 	}
 	bad := ""
 	cases := 0
-	for n := int64(3); n <= 6 && bad == ""; n++ {
+	maxN := int64(6)
+	if deepTier {
+		maxN = 16
+	}
+	for n := int64(3); n <= maxN && bad == ""; n++ {
 		for i := int64(0); i < n && bad == ""; i++ {
 			cases++
 			func() {
@@ -1348,7 +1356,7 @@ func (p *Program) ruleCyclicNeighbours(c *Check) {
 	if bad != "" {
 		c.Bad("E12.cyclic", con, p.Pos(loop.Pos()), bad+": the turn at the seam is computed from the wrong vertices, so convexity depends on where the ring starts")
 	} else {
-		c.OK("E12.cyclic", con, p.Pos(loop.Pos()), fmt.Sprintf("for n = 3…6 and every index (%d cases) the triple is points[i], points[(i+1) mod n], points[(i+2) mod n]", cases))
+		c.OK("E12.cyclic", con, p.Pos(loop.Pos()), fmt.Sprintf("for n = 3…%d and every index (%d cases) the triple is points[i], points[(i+1) mod n], points[(i+2) mod n]", maxN, cases))
 	}
 }
 
